@@ -1,0 +1,18 @@
+//go:build verif
+
+package core
+
+// This file is a test seam for the external verification harness (/verif).
+// It is compiled only with `-tags verif` and adds no behaviour to normal builds.
+
+// VerifTryRunGC performs the second half of one tick of the Run loop on its
+// own: tryRunGC(oldPersisted), where oldPersisted is the persisted height
+// that was read before the flush of that tick (see Run). Unlike
+// VerifPersistGC it does not flush, so blocks accepted after the flush and
+// before the garbage collection stay in the write cache only, as they do in
+// a running node. It is a no-op unless RemoveUntraceableBlocks is set.
+func (bc *Blockchain) VerifTryRunGC(oldPersisted uint32) {
+	if bc.config.RemoveUntraceableBlocks {
+		bc.tryRunGC(oldPersisted)
+	}
+}
